@@ -5,6 +5,7 @@ package lib
 
 import (
 	"bufio"
+	"context"
 	"encoding/json"
 	"flag"
 	"fmt"
@@ -414,7 +415,15 @@ func parentMain(h *Harness) int {
 			if alt := os.Getenv("VERIF_ALT_BIN"); alt != "" && h.AltShard != nil && h.AltShard(i, n) {
 				bin = alt
 			}
-			cmd := exec.Command(bin, "-tier", tier, "-seed", fmt.Sprint(*flagSeed), "-shard", fmt.Sprintf("%d/%d", i, n),
+			// A worker honours the deadline itself; one that is still running long
+			// after it is stuck inside the code under test and is killed.
+			grace := 4 * time.Minute
+			if budget > 10*time.Minute {
+				grace = 10 * time.Minute
+			}
+			ctx, cancel := context.WithDeadline(context.Background(), deadline.Add(grace))
+			defer cancel()
+			cmd := exec.CommandContext(ctx, bin, "-tier", tier, "-seed", fmt.Sprint(*flagSeed), "-shard", fmt.Sprintf("%d/%d", i, n),
 				"-out", out, "-deadline", fmt.Sprint(deadline.Unix()))
 			logf, _ := os.Create(filepath.Join(tmp, fmt.Sprintf("log-%d.txt", i)))
 			cmd.Stdout, cmd.Stderr = logf, logf
@@ -425,6 +434,10 @@ func parentMain(h *Harness) int {
 			cmd.Env = append(os.Environ(), fmt.Sprintf("GOMAXPROCS=%d", gmp))
 			err := cmd.Run()
 			_ = logf.Close()
+			if err != nil && ctx.Err() != nil {
+				results[i].err = fmt.Sprintf("shard %d: worker stuck: it was still running %s after the end of its time budget and was killed (signal: killed)", i, grace)
+				return
+			}
 			if err != nil {
 				lg, _ := os.ReadFile(logf.Name())
 				if len(lg) > 4000 {
@@ -510,8 +523,12 @@ func parentMain(h *Harness) int {
 			fmt.Printf("NOTE property=%s a worker did not finish (its part of the exploration is missing): %s\n", h.Prop, firstLine(engineErr))
 			m.Exhaustive = false
 		case crash:
-			c, _ := json.Marshal(map[string]string{"note": "a worker process of the check died while executing the code under test; re-run the check to reproduce", "worker": firstLine(engineErr)})
-			viols = append(viols, Violation{Key: "crash:worker-process-died", Desc: "a worker process died while executing the code under test:\n" + engineErr, Case: c})
+			c, _ := json.Marshal(map[string]string{"note": "a worker process of the check died or got stuck while executing the code under test; re-run the check to reproduce", "worker": firstLine(engineErr)})
+			key, what := "crash:worker-process-died", "a worker process died while executing the code under test:\n"
+			if strings.Contains(engineErr, "worker stuck") {
+				key, what = "stall:worker-process-stuck", "a worker process never returned from the code under test:\n"
+			}
+			viols = append(viols, Violation{Key: key, Desc: what + engineErr, Case: c})
 			m.Exhaustive = false
 		default:
 			fmt.Printf("ENGINE-ERROR property=%s\n%s\n", h.Prop, engineErr)
